@@ -368,6 +368,19 @@ func (g *gen) genFloat() (string, float64) {
 		if g.r.Intn(8) == 0 {
 			ni = 1 + g.r.Intn(19)
 		}
+		if g.r.Intn(12) == 0 {
+			// a plain integer of 20..40 digits in a float position (beyond uint64: the value is still the
+			// correctly rounded float64 of the decimal number, not a saturated integer)
+			s := digits(g.r, 20+g.r.Intn(21), true)
+			if g.r.Intn(3) == 0 {
+				s = []string{"18446744073709551615", "18446744073709551616", "18446744073709551617", "9223372036854775808",
+					"36893488147419103232", "99999999999999999999", "100000000000000000000"}[g.r.Intn(7)]
+			}
+			s = sb.String() + s
+			if f, err := strconv.ParseFloat(s, 64); err == nil {
+				return s, f
+			}
+		}
 		ip := digits(g.r, ni, true)
 		if g.r.Intn(5) == 0 {
 			ip = "0"
